@@ -1123,4 +1123,137 @@ theorem parseTextBlock_sat (hw : WF ts) (h : G ts e s) :
   rintro _ s2 ⟨g2, c2⟩
   exact Sat.pushEv ⟨g2.setEvs _, c2⟩
 
+theorem sectionP_sat (hw : WF ts) (h : G ts e s) :
+    Sat (sectionP (α := α)) s (fun r s' => G ts e s' ∧ (r.isSome = true → s'.cur = ts.length)) := by
+  unfold sectionP
+  refine Sat.bind (Sat.mono (consumeK_sat _ h) ?_)
+  rintro r1 s1 ⟨g1, h1⟩
+  cases r1 with
+  | none => exact Sat.pure ⟨g1, by simp⟩
+  | some m =>
+    refine Sat.bind (Sat.mono (consumeWhile_sat _ g1) ?_)
+    rintro _ s2 ⟨g2, c2, -, -, -⟩
+    refine Sat.bind (currentOffset_sat g2 ?_)
+    refine Sat.bind (Sat.mono (consumeWhile_sat _ g2) ?_)
+    rintro nameT s3 ⟨g3, c3, hn, -, -⟩
+    have hr : RunAt (offAt ts s2.cur) nameT := by rw [hn]; exact slice_runAt hw.run c3
+    refine Sat.bind (bpText_sat hr ?_)
+    refine Sat.bind (Sat.mono (consumeWhile_sat _ g3) ?_)
+    rintro _ s4 ⟨g4, c4, -, -, -⟩
+    unfold wsComments
+    refine Sat.bind (Sat.mono (consumeWhile_sat _ g4) ?_)
+    rintro _ s5 ⟨g5, c5, -, -, -⟩
+    refine Sat.bind (restToks_sat g5 ?_)
+    split
+    · refine Sat.bind (Sat.pwarn ?_); intro evs
+      exact Sat.pure ⟨g5.setEvs evs, by simp⟩
+    · rename_i hemp
+      refine Sat.bind (Sat.get ?_)
+      have := drop_isEmpty_true (ts := ts) (c := s5.cur) (by simpa using hemp)
+      have := g5.le
+      exact Sat.pure ⟨g5, fun _ => by omega⟩
+
+theorem metadataEntry_sat (hw : WF ts) (h : G ts e s) :
+    Sat (metadataEntry (α := α)) s (fun r s' => G ts e s' ∧ (r.isSome = true → s'.cur = ts.length)) := by
+  unfold metadataEntry
+  refine Sat.bind (Sat.mono (consumeK_sat _ h) ?_)
+  rintro r1 s1 ⟨g1, h1⟩
+  cases r1 with
+  | none => exact Sat.pure ⟨g1, by simp⟩
+  | some m =>
+    refine Sat.bind (currentOffset_sat g1 ?_)
+    refine Sat.bind (Sat.mono (untilK_sat _ g1) ?_)
+    rintro r2 s2 ⟨g2, h2⟩
+    cases r2 with
+    | none =>
+      unfold bpSpan
+      refine Sat.bind (Sat.bind (Sat.get ?_))
+      refine tokensSpanP_sat (by rw [g2.toks]; exact hw.ne) ?_
+      refine Sat.bind (Sat.pwarn ?_); intro evs
+      exact Sat.pure ⟨g2.setEvs evs, by simp⟩
+    | some keyT =>
+      obtain ⟨c2, hkey, ⟨c, hc, hck⟩, -⟩ := h2
+      have hr : RunAt (offAt ts s1.cur) keyT := by rw [hkey]; exact slice_runAt hw.run c2
+      refine Sat.bind (bpText_sat hr ?_)
+      refine Sat.bind (Sat.mono (bump_sat g2 hc (by simpa using hck)) ?_)
+      rintro _ s3 ⟨-, g3, c3⟩
+      refine Sat.bind (currentOffset_sat g3 ?_)
+      refine Sat.bind (Sat.mono (consumeRest_sat g3) ?_)
+      rintro valT s4 ⟨g4, c4, hv⟩
+      have hr2 : RunAt (offAt ts s3.cur) valT := by rw [hv]; exact slice_runAt hw.run g3.le
+      refine Sat.bind (bpText_sat hr2 ?_)
+      refine Sat.bind (Sat.get ?_)
+      dsimp only
+      split
+      · refine Sat.bind (Sat.perr ?_); intro evs
+        exact Sat.pure ⟨g4.setEvs evs, fun _ => c4⟩
+      · split
+        · refine Sat.bind (Sat.pwarn ?_); intro evs
+          exact Sat.pure ⟨g4.setEvs evs, fun _ => c4⟩
+        · exact Sat.pure ⟨g4, fun _ => c4⟩
+
+theorem parseMultilineBlock_sat (hw : WF ts) (h : G ts e s) :
+    Sat (parseMultilineBlock (α := α)) s (fun _ s' => G ts e s' ∧ s'.cur = ts.length) := by
+  unfold parseMultilineBlock
+  refine Sat.bind (allToks_sat h ?_)
+  split
+  · refine Sat.bind (Sat.mono (consumeRest_sat h) ?_)
+    rintro _ s1 ⟨g1, c1, -⟩
+    exact Sat.pure ⟨g1, c1⟩
+  · refine Sat.bind (peekK_sat h ?_)
+    split
+    · exact parseTextBlock_sat hw h
+    · exact parseStep_sat hw h
+
+theorem parseBlock_sat (oldStyle : Bool) (hw : WF ts) (h : G ts e s) :
+    Sat (parseBlock (α := α) oldStyle) s (fun _ s' => G ts e s' ∧ s'.cur = ts.length) := by
+  unfold parseBlock
+  apply Sat.bind
+  apply Sat.mono (Q := fun r s' => G ts e s' ∧ (r.isSome = true → s'.cur = ts.length))
+  · refine Sat.bind (peekK_sat h ?_)
+    split
+    · apply withRecover_sat
+      refine Sat.bind (Sat.mono (metadataEntry_sat hw h) ?_)
+      rintro r1 s1 ⟨g1, h1⟩
+      split
+      · refine Sat.bind (Sat.get ?_)
+        refine Sat.bind (hasExt_sat g1 ?_)
+        split
+        · exact Sat.pure ⟨g1, fun _ => h1 rfl⟩
+        · exact Sat.pure ⟨g1.setCur h.le, by simp⟩
+      · exact Sat.pure ⟨g1.setCur h.le, by simp⟩
+    · apply withRecover_sat
+      refine Sat.mono (sectionP_sat hw h) ?_
+      rintro r1 s1 ⟨g1, h1⟩
+      cases r1 with
+      | none => exact ⟨g1.setCur h.le, by simp⟩
+      | some ev => exact ⟨g1, h1⟩
+    · exact Sat.pure ⟨h, by simp⟩
+  rintro r s1 ⟨g1, h1⟩
+  cases r with
+  | some ev => exact Sat.pushEv ⟨g1.setEvs _, h1 rfl⟩
+  | none => exact parseMultilineBlock_sat hw g1
+
+/-- **No panic site of the block parser is reachable** on a non-empty run of adjacent tokens -/
+theorem runBlock_no_panic (cs : CharSpec) (ext : Ext) (oldStyle : Bool) (b : List Tok)
+    (evs : Array (Ev α)) (hw : WF b) : (runBlock cs ext oldStyle b evs none).2 = none := by
+  have g0 : G b ext (⟨b, 0, ext, cs, evs, none⟩ : BP α) := ⟨rfl, rfl, rfl, Nat.zero_le _⟩
+  have hne : b.isEmpty = false := by
+    have := hw.ne
+    cases b <;> simp_all
+  have key : Sat (do
+      if b.isEmpty then panicWith "BlockParser::new: empty tokens"
+      parseBlock (α := α) oldStyle
+      let s ← get
+      if s.cur ≠ s.toks.length then panicWith "Block tokens not parsed") ⟨b, 0, ext, cs, evs, none⟩
+      (fun _ s' => s'.panic = none) := by
+    simp only [hne, Bool.false_eq_true, if_false]
+    refine Sat.bind (Sat.mono (parseBlock_sat oldStyle hw g0) ?_)
+    rintro _ s1 ⟨g1, c1⟩
+    refine Sat.bind (Sat.get ?_)
+    have : s1.cur = s1.toks.length := by rw [g1.toks]; exact c1
+    simp only [this, ne_eq, not_true_eq_false, if_false]
+    exact Sat.pure g1.panic
+  exact key
+
 end Cook
